@@ -18,7 +18,7 @@ def main():
     src = f"/tmp/mut_out/{mid}"
     if not os.path.isdir(WT):
         sh(f"git -C /repo worktree add -q --detach {WT} HEAD")
-    sh("git checkout -q --detach $(git -C /repo rev-parse HEAD) && git checkout -- . && git clean -fdq", cwd=WT)
+    sh("git reset -q --hard; git checkout -q --detach $(git -C /repo rev-parse HEAD) && git reset -q --hard && git clean -fdq", cwd=WT)
     demo = open(f"{src}/demo_test.go").read()
     head = "\n".join(demo.splitlines()[:6])
     m = re.search(r"(activeauth|bac|chipauth|cms|cryptoutils|document|iso7816|mobile|pace|passiveauth|password|reader|tlv|verifier|mrz|utils)/", head)
@@ -32,6 +32,7 @@ def main():
         # the change was written against an earlier commit of /repo (before a later fix: commit): fall back to a 3-way merge
         rc, out = sh(f"git apply --3way {src}/patch.diff && git reset -q", cwd=WT)
         if rc != 0:
+            sh("git reset -q --hard && git clean -fdq", cwd=WT)
             print(mid, "PATCH-DOES-NOT-APPLY", out[-300:]); return 1
         sh(f"git diff > {src}/patch.rebased.diff", cwd=WT)
         src_patch = f"{src}/patch.rebased.diff"
@@ -70,7 +71,7 @@ def main():
     dst = f"/verif/seeded/{mid}"
     os.makedirs(dst, exist_ok=True)
     meta["base_commit"] = sh("git -C /repo rev-parse --short HEAD")[1].strip()
-    for f in ("patch.diff", "patch.rebased.diff", "demo_test.go", "notes.md"):
+    for f in ("patch.diff", "patch.rebased.diff", "patch.orig-c771755.diff", "demo_test.go", "notes.md"):
         if os.path.exists(f"{src}/{f}"):
             shutil.copy(f"{src}/{f}", f"{dst}/{f}")
     meta["what_it_needs"] = "see notes.md"
